@@ -126,14 +126,22 @@ Proof. exact bracketing. Qed.
 Print Assumptions C10_bracketing.
 
 Theorem C10_array_or_element : forall d p op v arr, is_op p = false -> In op cmp_ops ->
-  All d p true true = (VArr arr, false) ->
+  All d p true false = (VArr arr, false) ->
   Match d [(p, VDoc [(op, v)])] =
   Ok (holds op (VArr arr) v || existsb (fun e => holds op e v) arr).
 Proof. exact array_or_element. Qed.
 Print Assumptions C10_array_or_element.
 
+(* under fan-out every value found is matched like a directly addressed field *)
+Theorem C10_fanout_leaves : forall d p op v leaves, is_op p = false -> In op cmp_ops ->
+  All d p true false = (VArr leaves, true) ->
+  Match d [(p, VDoc [(op, v)])] =
+  Ok (existsb (fun leaf => existsb (fun c => holds op c v) (leaf_candidates leaf)) leaves).
+Proof. exact fanout_leaves. Qed.
+Print Assumptions C10_fanout_leaves.
+
 Theorem C10_scalar_field : forall d p op v x, is_op p = false -> In op cmp_ops ->
-  All d p true true = (x, false) -> (forall a, x <> VArr a) ->
+  All d p true false = (x, false) -> (forall a, x <> VArr a) ->
   Match d [(p, VDoc [(op, v)])] = Ok (holds op x v).
 Proof. exact scalar_field. Qed.
 Print Assumptions C10_scalar_field.
@@ -152,14 +160,14 @@ Print Assumptions C10_lt_date_brackets.
    8.1).  The property's domain is D1-D4 as written in 8.2 (`domainb`: D1 no
    array directly in an array, D2 non-null scalar operands and the leaf
    operators only under fan-out, D3 no numeric field names inside array
-   elements, D4 well-formed arguments).  Inside it lungo has four recorded
-   defect classes (known_findings.json, property C10); `core` is D1-D4 minus
-   these classes and `domain_class` tells where a pair lies.  On `core` the
+   elements, D4 well-formed arguments).  Inside it lungo has one recorded
+   defect class (known_findings.json, property C10; five more were repaired);
+   `core` is D1-D4 minus that class and `domain_class` tells where a pair lies.  On `core` the
    agreement is proved, for every operator: $and $or $nor, implicit and,
    literal equality, $eq $gt $gte $lt $lte $ne, $in $nin, $exists, $type,
    $size, $mod, $bitsAllSet/AllClear/AnySet/AnyClear, $not, $all, $elemMatch.
    $jsonSchema has no reference semantics here and is outside the domain.
-   On the finding classes the real matcher is compared with the reference on
+   On the finding class the real matcher is compared with the reference on
    every run (oracle `reference`): disagreements there are KNOWN-FINDINGs, any
    disagreement inside `core` is a violation. *)
 Theorem C10_match_ref : forall d f,
@@ -212,44 +220,10 @@ Theorem C10_nested_array_refuted :
 Proof. exact nested_array_refuted. Qed.
 Print Assumptions C10_nested_array_refuted.
 
-Theorem C10_array_operand_fanout_refuted :
-  differs [("a", VArr [VDoc [("b", VArr [VInt32 1; VInt32 2])]; VDoc [("b", VArr [VInt32 3])]])]
-          [("a.b", VArr [VInt32 3])] false.
-Proof. exact array_operand_fanout_refuted. Qed.
-Print Assumptions C10_array_operand_fanout_refuted.
-
-(* -- INSIDE D1-D4: genuine lungo defects.  Each theorem is the Coq witness of
+(* -- INSIDE D1-D4: a genuine lungo defect.  The theorem is the Coq witness of
       the finding of known_findings.json (property C10) whose signature it
       carries: the faithful model answers like lungo, the reference answers the
       opposite, and the pair lies in that class of the property's domain. -- *)
-
-(* finding C10:type-array-under-fanout *)
-Theorem C10_type_array_fanout_refuted :
-  finding [("a", VArr [VDoc [("b", VArr [VInt32 1])]])] [("a.b", VDoc [("$type", VString "array")])]
-          false "C10:type-array-under-fanout".
-Proof. exact type_array_fanout_refuted. Qed.
-Print Assumptions C10_type_array_fanout_refuted.
-
-(* finding C10:exists-under-fanout-empty-array *)
-Theorem C10_exists_fanout_empty_refuted :
-  finding [("a", VArr [VDoc [("b", VArr [])]])] [("a.b", VDoc [("$exists", VBool true)])]
-          false "C10:exists-under-fanout-empty-array".
-Proof. exact exists_fanout_empty_refuted. Qed.
-Print Assumptions C10_exists_fanout_empty_refuted.
-
-(* finding C10:size-under-fanout (an array is missed ...) *)
-Theorem C10_size_fanout_refuted :
-  finding [("a", VArr [VDoc [("b", VArr [VDoc [("c", VArr [VInt32 1; VInt32 2])]])]])]
-          [("a.b.c", VDoc [("$size", VInt32 2)])] false "C10:size-under-fanout".
-Proof. exact size_fanout_refuted. Qed.
-Print Assumptions C10_size_fanout_refuted.
-
-(* finding C10:size-under-fanout (... and a collected empty list is taken for an array) *)
-Theorem C10_size_fanout_phantom_refuted :
-  finding [("a", VArr [VDoc [("b", VArr [])]])] [("a.b.c", VDoc [("$size", VInt32 0)])]
-          true "C10:size-under-fanout".
-Proof. exact size_fanout_phantom_refuted. Qed.
-Print Assumptions C10_size_fanout_phantom_refuted.
 
 (* finding C10:null-with-index-into-document-array *)
 Theorem C10_index_null_refuted :
@@ -259,8 +233,40 @@ Proof. exact index_null_refuted. Qed.
 Print Assumptions C10_index_null_refuted.
 
 (* -- repaired in lungo (known_findings.json, status fixed:
-      C10:type-null-on-missing-field, C10:all-mixed-operands): the inputs that
-      used to differ now lie in `core`, where C10_match_ref applies -- *)
+      C10:type-null-on-missing-field, C10:all-mixed-operands,
+      C10:type-array-under-fanout, C10:exists-under-fanout-empty-array,
+      C10:size-under-fanout): the inputs that used to differ now lie in `core`,
+      where C10_match_ref applies (`repaired d f b` = core, Match = Ok b, holds = b) -- *)
+Theorem C10_type_array_fanout_repaired :
+  repaired [("a", VArr [VDoc [("b", VArr [VInt32 1])]])] [("a.b", VDoc [("$type", VString "array")])] true.
+Proof. exact type_array_fanout_repaired. Qed.
+Print Assumptions C10_type_array_fanout_repaired.
+
+Theorem C10_exists_fanout_empty_repaired :
+  repaired [("a", VArr [VDoc [("b", VArr [])]])] [("a.b", VDoc [("$exists", VBool true)])] true.
+Proof. exact exists_fanout_empty_repaired. Qed.
+Print Assumptions C10_exists_fanout_empty_repaired.
+
+Theorem C10_size_fanout_repaired :
+  repaired [("a", VArr [VDoc [("b", VArr [VDoc [("c", VArr [VInt32 1; VInt32 2])]])]])]
+           [("a.b.c", VDoc [("$size", VInt32 2)])] true.
+Proof. exact size_fanout_repaired. Qed.
+Print Assumptions C10_size_fanout_repaired.
+
+Theorem C10_size_fanout_phantom_repaired :
+  repaired [("a", VArr [VDoc [("b", VArr [])]])] [("a.b.c", VDoc [("$size", VInt32 0)])] false.
+Proof. exact size_fanout_phantom_repaired. Qed.
+Print Assumptions C10_size_fanout_phantom_repaired.
+
+(* outside D2, repaired by the same change: an array operand under fan-out *)
+Theorem C10_array_operand_fanout_repaired :
+  Match [("a", VArr [VDoc [("b", VArr [VInt32 1; VInt32 2])]; VDoc [("b", VArr [VInt32 3])]])]
+        [("a.b", VArr [VInt32 3])] = Ok true /\
+  RefMatch.holds [("a", VArr [VDoc [("b", VArr [VInt32 1; VInt32 2])]; VDoc [("b", VArr [VInt32 3])]])]
+        [("a.b", VArr [VInt32 3])] = true.
+Proof. exact array_operand_fanout_repaired. Qed.
+Print Assumptions C10_array_operand_fanout_repaired.
+
 Theorem C10_type_null_missing_repaired :
   core [("b", VInt32 1)] [("a", VDoc [("$type", VString "null")])] /\
   Match [("b", VInt32 1)] [("a", VDoc [("$type", VString "null")])] = Ok false /\
